@@ -571,6 +571,15 @@ impl Rig {
                 verif::trace::emit(json!({"e": "Spawn", "name": name, "pid": child.id(), "exe": exe, "args": args}));
                 self.helpers.lock().unwrap().insert(name, child);
             }
+            // what a helper process is running right now (it may exec another program during the scenario)
+            "helper_exe" => {
+                let name = st["name"].as_str().unwrap();
+                let pid = self.helpers.lock().unwrap().get(name).map(|c| c.id()).unwrap_or(0);
+                let exe = std::fs::read_link(format!("/proc/{}/exe", pid)).map(|p| p.to_string_lossy().to_string()).unwrap_or_default();
+                let cmd = std::fs::read(format!("/proc/{}/cmdline", pid)).unwrap_or_default();
+                let cmd: Vec<String> = cmd.split(|b| *b == 0).filter(|x| !x.is_empty()).map(|x| String::from_utf8_lossy(x).to_string()).collect();
+                verif::trace::emit(json!({"e": "HelperExe", "name": name, "pid": pid, "exe": exe, "cmd": cmd, "tag": st["tag"]}));
+            }
             "connect" => {
                 let conn = st["conn"].as_str().unwrap().to_string();
                 let mut want_port = st["port"].as_u64().unwrap_or(0) as u16;
